@@ -87,6 +87,10 @@ pub mod parameters {
     }
 }
 
+pub mod selector {
+    /// SHIM: the selector is only passed through here (its meaning: unit `listing`)
+    pub struct LogfileSelector { _o: () }
+}
 pub mod write_mode {
     use super::*;
     use std::time::Duration;
@@ -144,6 +148,7 @@ pub mod state {
     use super::util::{eprint_err, ErrorCode};
     use super::parameters::{Age, Cleanup, Criterion, Naming, FileSpec, ostr};
     use super::flexi_error::FlexiLoggerError;
+    use super::selector::LogfileSelector;
     use chrono::{DateTime, Datelike, Local, Timelike};
     use std::{
         fs::{remove_file, File, OpenOptions},
@@ -259,6 +264,14 @@ pub mod state {
                 RollState::AgeOrSize{age, max_size, ..} => RollState::AgeOrSize{age: *age, created_at: creation_ts(p), max_size: *max_size, current_size: 0},
             }
         }
+        /// the roll state with the size account set to `size` (the age part is kept)
+        spec fn with_size(&self, size: u64) -> RollState {
+            match self {
+                RollState::Size{max_size, ..} => RollState::Size{max_size: *max_size, current_size: size},
+                RollState::Age{..} => *self,
+                RollState::AgeOrSize{age, created_at, max_size, ..} => RollState::AgeOrSize{age: *age, created_at: *created_at, max_size: *max_size, current_size: size},
+            }
+        }
         spec fn plus(&self, add: u64) -> RollState {
             match self {
                 RollState::Size{max_size, current_size} => RollState::Size{max_size: *max_size, current_size: (*current_size + add) as u64},
@@ -298,6 +311,9 @@ pub mod state {
     //@   props C09,C01
     //@   ens[age_rotation_necessary.post] r == !same_period(age, created_at, &clock_now())
     //@   canary
+    //@ fn src/writers/file_log_writer/state.rs impl RollState / fn set_size
+    //@   props C08
+    //@   ens[RollState::set_size.post] *final(self) == old(self).with_size(size)
     //@ fn src/writers/file_log_writer/state.rs impl RollState / fn reset_size_and_date
     //@   props C08,C09,C01
     //@   ens[reset_size_and_date.post] *final(self) == old(self).reset_to(path_view(path))
@@ -322,6 +338,16 @@ pub mod state {
     //@   ret r
     //@   props C16
     //@   ens[uses_rotation.post] r == match self { Inner::Initial(o_r, _) => o_r is Some, Inner::Active(o_r, _, _) => o_r is Some }
+        /// the filter of the active naming scheme; none while not started or without rotation
+        pub(crate) closed spec fn infix_filter_of(&self) -> InfixFilter {
+            match self { Inner::Active(Some(rs), _, _) => rs.naming_state.infix_filter_spec(), _ => InfixFilter::None }
+        }
+    //@ fn src/writers/file_log_writer/state.rs impl Inner / fn infix_filter
+    //@   ret r
+    //@   props C16,C07,C14
+    //@   closure ~rs.naming_state.infix_filter() ## sig |rs: &RotationState| -> (r: InfixFilter)
+    //@   closure ~rs.naming_state.infix_filter() ## ens r == rs.naming_state.infix_filter_spec()
+    //@   ens[Inner::infix_filter.post] r == self.infix_filter_of()
     }
     //@ item src/writers/file_log_writer/state.rs struct State
     //@   dropattr #[derive(Debug)]
@@ -335,6 +361,10 @@ pub mod state {
         spec fn rot(&self) -> RotationState { self.inner->Active_0->Some_0 }
         pub closed spec fn should_rotate(&self) -> bool { self.has_rot() && self.rot().roll_state.should_rotate() }
         pub closed spec fn cfg(&self) -> FileLogWriterConfig { self.config }
+        /// what existing_log_files asks the listing for: rotation configured?, the filter of the active naming scheme
+        pub closed spec fn listing_args(&self) -> (bool, InfixFilter) {
+            ((match self.inner { Inner::Initial(o_r, _) => o_r is Some, Inner::Active(o_r, _, _) => o_r is Some }), self.inner.infix_filter_of())
+        }
         /// A5: machine arithmetic premises
         pub closed spec fn arith_ok(&self, add: int) -> bool {
             &&& (!self.active() ==> forall|m: std::fs::Metadata| #[trigger] metadata_len(&m) + add <= u64::MAX)
@@ -540,11 +570,23 @@ pub mod state {
     //@   ens[write_buffer.post] State::write_post(old(self), buf@, final(self), r is Ok)
     //@   canary
 
+        /// C08 (F16): after a reopen the size account is the length of the file at the stored path — the file that is written
+        /// to from now on (0 if it cannot be looked at); everything else of the rotation state, the path and the
+        /// configuration are unchanged
         pub closed spec fn reopen_frame(&self, o: &State) -> bool {
             self.config == o.config && self.active() == o.active()
-            && (o.active() ==> self.inner->Active_0 == o.inner->Active_0 && self.inner->Active_2 == o.inner->Active_2)
+            && (o.active() ==> self.inner->Active_2 == o.inner->Active_2
+                && (o.inner->Active_0 is Some) == (self.inner->Active_0 is Some)
+                && (o.inner->Active_0 is Some ==> self.rot().naming_state == o.rot().naming_state && self.rot().cleanup == o.rot().cleanup
+                    && self.rot().o_cleanup_thread_handle == o.rot().o_cleanup_thread_handle
+                    && self.rot().roll_state == o.rot().roll_state.with_size(
+                        match fs_metadata_result(o.path()) { Ok(md) => metadata_len(&md), Err(_) => 0 })))
         }
         pub closed spec fn same_writer(&self, o: &State) -> bool { self.writer() == o.writer() }
+        /// the writer is still the old one, flushed once more (nothing written, nothing lost)
+        pub closed spec fn same_writer_flushed(&self, o: &State) -> bool {
+            self.writer().src() == o.writer().src() && self.w().written == o.w().written && self.w().flush_calls == o.w().flush_calls + 1 && self.w().flushed >= o.w().flushed
+        }
         pub closed spec fn shutdown_frame(&self, o: &State) -> bool {
             self.same_but_writer_view(o) || (o.has_rot() && self.has_rot()
               && self.config == o.config && self.inner->Active_2 == o.inner->Active_2 && self.wsrc() == o.wsrc()
@@ -557,12 +599,14 @@ pub mod state {
         pub open spec fn reopen_flags() -> OpenFlags { OpenFlags { write: false, create: true, append: true, truncate: false } }
     //@ fn src/writers/file_log_writer/state.rs impl State / fn reopen_outputfile
     //@   ret r
-    //@   props C18,C14
-    //@   ens[reopen.post.frame] final(self).reopen_frame(old(self))
+    //@   props C18,C14,C08,C09
+    //@   closure ~md.len() ## sig |md: std::fs::Metadata| -> (r: u64)
+    //@   closure ~md.len() ## ens r == metadata_len(&md)
+    //@   ens[reopen.post.frame] r is Ok ==> final(self).reopen_frame(old(self))
     //@   ens[reopen.post.initial] !old(self).active() ==> r is Ok && *final(self) == *old(self)
     //@   ens[reopen.post.ok] old(self).active() && r is Ok ==> final(self).w() == fresh_wview()
     //@       && final(self).wsrc() == (WSrc { path: old(self).path(), flags: State::reopen_flags(), buffered: None })
-    //@   ens[reopen.post.err] old(self).active() && r is Err ==> final(self).same_writer(old(self))
+    //@   ens[reopen.post.err] old(self).active() && r is Err ==> final(self).same_writer_flushed(old(self))
     //@       || (final(self).w() == fresh_wview() && final(self).wsrc() == (WSrc { path: path_with_extension(old(self).path(), "ShortLivingTempFileForReOpen"@), flags: State::reopen_flags(), buffered: None }))
     //@   canary
     //@ fn src/writers/file_log_writer/state.rs impl State / fn shutdown
@@ -663,6 +707,10 @@ pub mod state {
             }
         }
 
+    //@ fn src/writers/file_log_writer/state.rs impl State / fn existing_log_files
+    //@   ret r
+    //@   props C16
+    //@   ens[State::existing_log_files.post] r@ == list_and_cleanup::elf_result(&self.cfg().file_spec, self.listing_args().0, &self.listing_args().1, selector)
     //@ fn src/writers/file_log_writer/state.rs impl State / fn flush
     //@   ret r
     //@   props C04,C15
@@ -772,6 +820,8 @@ pub mod state {
     pub mod list_and_cleanup {
         use super::*;
         use super::super::parameters::{FileSpec, Cleanup};
+        use super::super::selector::LogfileSelector;
+        use std::path::PathBuf;
         //@ opaque src/writers/file_log_writer/state/list_and_cleanup.rs struct CleanupThreadHandle
         impl CleanupThreadHandle {
         //@ sig src/writers/file_log_writer/state/list_and_cleanup.rs impl CleanupThreadHandle / fn shutdown
@@ -782,6 +832,11 @@ pub mod state {
             infix_filter: &InfixFilter, writes_direct: bool) -> Result<(), std::io::Error>;
         pub uninterp spec fn cleanup_thread_result(cleanup: Cleanup, file_spec: FileSpec, infix_filter: &InfixFilter, writes_direct: bool)
             -> Result<CleanupThreadHandle, std::io::Error>;
+        /// oracle: the listing (composition proved in unit `listing`: existing_log_files.post)
+        pub uninterp spec fn elf_result(file_spec: &FileSpec, use_rotation: bool, infix_filter: &InfixFilter, selector: &super::super::selector::LogfileSelector) -> Seq<std::path::PathBuf>;
+        //@ sig src/writers/file_log_writer/state/list_and_cleanup.rs fn existing_log_files
+        //@   ret r
+        //@   ens r@ == elf_result(file_spec, use_rotation, infix_filter, selector)
         //@ sig src/writers/file_log_writer/state/list_and_cleanup.rs fn remove_or_compress_too_old_logfiles
         //@   ret r
         //@   ens r == cleanup_result(ohandle(o_cleanup_thread_handle), cleanup_config, file_spec, infix_filter, writes_direct)
